@@ -81,7 +81,7 @@ def _witness_seed(lines, klass, pair, modes, timeout, judge):
 
 
 def _brief(r):
-    return {"mode": r["mode"], "status": r["status"], "err": r["err"], "errmsg": r.get("errmsg"),
+    return {"mode": r["mode"], "status": r["status"], "err": r["err"], "errmsg": r.get("errmsg"), "errwhere": r.get("errwhere"),
             "answers": {k: round(v, 12) for k, v in sorted(r["exact"].items())[:40]}}
 
 
@@ -124,6 +124,8 @@ def process(ctx, items, labels, source, totals, shrink_budget, judge=None, word=
                 if seen < shrink_budget:
                     totals["shrunk"][klass] = seen + 1
                     status_diff = base["status"] != r["status"] or base["status"] == "err"
+                    if any((x.get("errwhere") or "").startswith(("formula.py", "cycles.py")) for x in (base, r)):
+                        status_diff = False   # the error is raised after grounding: shrink with full evaluation
                     modes_ = alt_modes(r["mode"])
                     pair = (base["err"], r["err"])
                     small, ok = _shrink(lines, klass, pair, modes_, status_diff, timeout, judge)
